@@ -83,6 +83,10 @@ class RealWorld:
 
     def set_reject(self, names):
         hook = os.path.join(self.bare, 'hooks', 'update')
+        if not names:
+            if os.path.exists(hook):
+                os.remove(hook)
+            return
         os.makedirs(os.path.dirname(hook), exist_ok=True)
         lst = os.path.join(self.bare, 'rejected-refs')
         with open(lst, 'w') as f:
